@@ -188,6 +188,16 @@ _CALL = {"jit", "pjit", "closed_call", "core_call", "remat", "checkpoint", "cust
          "custom_vjp_call_jaxpr", "custom_lin", "run_state"}
 
 
+def _fold_out(x):
+    """result of a folded (all-concrete) equation -> numpy; typed PRNG key arrays (random_wrap / random_split) stay jax arrays."""
+    try:
+        if jax.dtypes.issubdtype(x.dtype, jax.dtypes.prng_key):
+            return x
+    except Exception:
+        pass
+    return np.asarray(x)
+
+
 class Interp:
     def __init__(self, unroll_bound=64, solve_stub=True):
         self.stats = {"eqns": 0, "folded": 0, "symbolic": 0, "while_iters": 0, "prims": {}}
@@ -259,8 +269,8 @@ class Interp:
             st["folded"] += 1
             r = e.primitive.bind(*[jnp.asarray(a) for a in ins], **prm)
             if e.primitive.multiple_results:
-                return [np.asarray(x) for x in r]
-            return np.asarray(r)
+                return [_fold_out(x) for x in r]
+            return _fold_out(r)
         st["symbolic"] += 1
         st["prims"][p] = st["prims"].get(p, 0) + 1
         h = getattr(self, "p_" + p.replace("-", "_"), None)
@@ -341,7 +351,11 @@ class Interp:
 
     def _scan(self, e, ins):
         prm = e.params
-        nc, ncar = prm["num_consts"], prm["num_carry"]
+        if "num_consts" in prm:
+            nc, ncar = prm["num_consts"], prm["num_carry"]
+        else:  # jax 0.11: the consts/carry/xs split is carried by the FlatTree param ft_in
+            _parts = [list(p) for p in prm["ft_in"].update(list(range(len(ins)))).unpack()]
+            nc, ncar = len(_parts[0]), len(_parts[1])
         length, rev = prm["length"], prm["reverse"]
         cj = prm["jaxpr"]
         consts, carry, xs = list(ins[:nc]), list(ins[nc:nc + ncar]), list(ins[nc + ncar:])
@@ -609,7 +623,7 @@ class Interp:
 
     def p_round(self, e, ins):
         m = e.params.get("rounding_method")
-        even = "EVEN" in str(m)
+        even = "EVEN" in str(m) or "EVEN" in str(getattr(m, "name", ""))  # jax 0.11: str(RoundingMethod.TO_NEAREST_EVEN) == "1"
         return ew(sc.round_half_even if even else sc.round_half_away, ins[0])
 
     def p_clamp(self, e, ins):
@@ -669,7 +683,7 @@ class Interp:
             out[...] = init
             return out
         acc = b[0]
-        if acc.shape == ():
+        if not isinstance(acc, np.ndarray) or acc.shape == ():
             acc = obj0(b[0]) if not isinstance(b[0], np.ndarray) else acc
         for i in range(1, n):
             acc = ew(f, acc, b[i] if isinstance(b[i], np.ndarray) else obj0(b[i]))
@@ -813,6 +827,10 @@ class Interp:
 
     def p_sort(self, e, ins):
         raise NotEncodable("sort of symbolic values")
+
+    def p_tile(self, e, ins):
+        # jnp.tile (a primitive since jax 0.11): pure data movement of operand 0
+        return self._move(e, ins, value_pos=(0,))
 
     # ------------------------------------------------------------------ stubs
     def _linalg_stub(self, name, e, ins):
